@@ -7,8 +7,8 @@ CONSTANTS
   NestTail = 0
   DeepTail = -1
   Nums = {1, 2, 3}
-  MaxOperands = 3
-  WithNeg = TRUE
+  MaxOperands = 4
+  WithNeg = FALSE
   CmpOps = {"<", ">"}
 INVARIANTS TypeOK CalcIsPrecedenceClimbing ExportCalc
 PROPERTY Terminates
